@@ -116,7 +116,37 @@ def r2_checksum_gate(ctx):
         oks = [e.block for e in cfg.exits(body) if e.kind == "ok"]
         k = f.root + "|ok-needs-checksum-match"
         if not g:
-            r.violation(k, cfg.loc(body), "%s no longer compares the entry's digest with the manifest checksum" % name, work=len(body.blocks))
+            # the comparison may live in a verifying helper called with `?`
+            done = False
+            for hi, ht in idioms.real_calls(body):
+                h = ws.fns.get(ht.get("resolved") or ht.get("callee") or "")
+                if h is None or h.crate != f.crate or h.root == f.root:
+                    continue
+                hb = cfg.code_body(ws, h)
+                hg = _digest_gate(ws, h, hb, FlowGraph(ws, h))
+                argsl = [fg.back_from_operand(body, a) for a in ht["args"]]
+                takes_sum = any(sl_.has_var(body, "checksum") for sl_ in argsl)
+                takes_data = any(any(cname(ct) == "by_name" for _b, _i, ct in sl_.calls) for sl_ in argsl)
+                if not (takes_sum and takes_data):
+                    continue
+                done = True
+                if not hg:
+                    r.violation(k, cfg.loc(hb), "%s delegates the check to %s, which does not compare the digest and the checksum for equality (`==`/`!=` on the whole values): a checksum that is only a prefix of the digest, or empty, is accepted" % (name, idioms.last_seg(h.root)), work=len(hb.blocks))
+                    break
+                hbs, hmism, hmatch = hg
+                hoks = [e.block for e in cfg.exits(hb) if e.kind == "ok"]
+                hbad = [o for o in hoks if o in cfg.reach(hb, [hmism], cut_blocks=[hbs.block]) or o in cfg.reach(hb, [0], cut_edges={(hbs.block, hmatch)})]
+                rb = idioms.result_branches(body, hi)
+                fbad = [o for o in oks if rb is None or o in cfg.reach(body, [0], cut_blocks=rb[0])]
+                if hbad:
+                    r.violation(k, cfg.loc(hb, hbad[0]), "%s (called by %s) can return Ok although the digest differs from the checksum" % (idioms.last_seg(h.root), name), work=len(hb.blocks))
+                elif fbad:
+                    r.violation(k, cfg.loc(body, fbad[0]), "%s can return the buffer without the success of %s" % (name, idioms.last_seg(h.root)), work=len(body.blocks))
+                else:
+                    r.ok(k, cfg.loc(body, hi), "Ok only after %s succeeded, which returns Ok only on its digest == checksum edge" % idioms.last_seg(h.root), work=len(body.blocks) + len(hb.blocks))
+                break
+            if not done:
+                r.violation(k, cfg.loc(body), "%s no longer compares the entry's digest with the manifest checksum" % name, work=len(body.blocks))
             continue
         bs, mism, match = g
         sl = fg.back([(body.path, bs.local)])
